@@ -139,9 +139,17 @@ def catalogue_c11(seed, tier, rng):
     c.add("focal", "focal_mean", [e8], {"excludes": [float("nan"), 45.0]})
     c.add("focal", "focal_mean", [e8], {"passes": 3})
     c.add("focal", "focal_mean", [ei], {"excludes": [45.0]})
+    c.add("focal", "focal_mean", [ei], {})                                   # default excludes, integer raster
+    fz = c.raster("cats_f8_withzeros", _spec(cats(rs, "f8"), 2.0, 3.0))
+    fzi = c.raster("cats_i4_withzeros", _spec(cats(rs, "i4"), 2.0, 3.0))
+    c.add("focal", "focal_mean", [fz], {})
+    c.add("focal", "focal_mean", [fzi], {})
+    c.add("focal", "focal_mean", [fz], {"passes": 2})
     c.add("focal", "focal_mean", [e8], {"passes": 2}, backend="dask", chunks={e8: _chunks(rng, (H0, W0))})
     c.add("focal", "focal_stats", [e8], {"kernel": K3}, identity="own")     # default stats list
     c.add("focal", "focal_stats", [e8], {"kernel": K53, "stats_funcs": ["max", "sum"]}, identity="own")
+    c.add("focal", "focal_stats", [e8], {"kernel": K53}, identity="own")     # default stats list, non-square kernel
+    c.add("focal", "focal_stats", [ei], {"kernel": K15}, identity="own")
     c.add("focal", "focal_stats", [e4], {"kernel": K3, "stats_funcs": ["range"]}, identity="own")
     c.add("focal", "focal_apply", [e8], {"kernel": np.ones((2, 3))}, expect_error="ValueError")
 
@@ -216,6 +224,7 @@ def catalogue_c11(seed, tier, rng):
     c.add("zonal", "zonal_stats", [zi, vi], {"stats_funcs": ["mean", "std", "var"]}, identity="own")
     c.add("zonal", "zonal_stats_custom", [zi, va], {"stats_funcs": ["dbl_sum", "rng"]}, identity="own")
     c.add("zonal", "zonal_stats_custom", [zi, va], {"stats_funcs": ["first"]}, identity="own")
+    c.add("zonal", "zonal_stats_custom", [zi, va], {"stats_funcs": ["mean", "rng"]}, identity="own")
     c.add("zonal", "zonal_stats_xarray", [zi, va], {"stats_funcs": ["mean", "max"]}, identity="own")
     c.add("zonal", "zonal_stats", [zi, va], {"stats_funcs": ["median"]}, identity="own", expect_error="ValueError")
     c.add("zonal", "zonal_stats", [zi, va], {}, backend="dask", identity="own",
